@@ -28,11 +28,13 @@ import ParamVerif.Refs.Lemmas
 
 namespace ParamVerif.Refs
 
-/-- every live link whose current resolved value is valid for its target: the target holds it -/
+/-- every live link that currently has a value to offer (evaluating it does not raise `Skip`) and
+whose resolved value is valid for its target: the target holds that value -/
 def Tracks (c : Cfg) (w : World) : Prop :=
   ∀ (t : Nat) (tg : Target) (p : Nat) (r : Rhs) (d : PDecl) (v : Val),
     w.tgts[t]? = some tg → (p, r) ∈ tg.refs → c.decl t p = some d →
-    resolveRhs c w r d.nestedRefs = some v → d.valid v = true → tg.read p = some v
+    resolveRhs c w r d.nestedRefs = some v → skipsRhs c w r d.nestedRefs = false → d.valid v = true →
+    tg.read p = some v
 
 /-- the `_sync_refs` watchers of target t sit exactly where a live link of t needs them -/
 def Exact (c : Cfg) (w : World) (t : Nat) : Prop :=
@@ -70,8 +72,8 @@ overrides, `update`s, `update` contexts, class-level assignments and source upda
 raised from inside `_sync_refs` — every live link whose resolved value is valid for its target
 holds that value: for every reference kind, every nesting, every opaque bound function `F`. -/
 theorem linked_value_tracks_reference_partial (c : Cfg) (w : World) (h : Reachable c true w) : Tracks c w := by
-  intro t tg p r d v ht hm hd hres hv
-  exact read_of_vals ((reachable_inv h).tracks t tg p r d v ht hm hd hres hv)
+  intro t tg p r d v ht hm hd hres hsk hv
+  exact read_of_vals ((reachable_inv h).tracks t tg p r d v ht hm hd hres hsk hv)
 
 /-- … and every dependency of every live link carries the target's `_sync_refs` watcher, which is
 why the invariant survives the next source update. -/
@@ -114,6 +116,9 @@ theorem override_removes_link (c : Cfg) (t p : Nat) (rhs : Rhs) (d : PDecl) (w w
           rw [hd] at hd'; cases hd'
           split at hs
           · rename_i old v rl hold hres
+            have hns : skipsForSet c d rhs w = false := by unfold skipsForSet; simp [hplain]
+            rw [hns] at hs
+            simp only [Bool.false_eq_true, if_false] at hs
             obtain ⟨v0, vals', hv, _, _, hvals, hw⟩ := setCore_ok_form htg hs
             obtain ⟨refs', watch', hform, hrl⟩ := applyRelink_form (rl := rl) (vals' := vals') htg hd
             rw [hform] at hw; subst hw
@@ -166,6 +171,39 @@ theorem override_removes_link (c : Cfg) (t p : Nat) (rhs : Rhs) (d : PDecl) (w w
             · rw [← hv', hv]; exact read_of_vals hp
           · simp at hs
         · simp at hs
+
+/-- **C08, a reference with no value to offer yet.**  Assigning a bound function whose evaluation
+raises `param.Skip` (so `_resolve_ref` yields `Undefined`) stores nothing, validates nothing and
+announces nothing — but it *is* the new link: refs names it, and by `invariant_step` the old
+sources keep no watcher, the new ones carry one, and as soon as a source update makes the function
+yield a valid value the parameter takes it (`linked_value_tracks_reference_partial`). -/
+theorem skipping_reference_becomes_the_link (c : Cfg) (t p : Nat) (rhs : Rhs) (d : PDecl) (w : World) (tg : Target)
+    (old v : Val) (htg : w.tgts[t]? = some tg) (hd : c.decl t p = some d) (hread : tg.read p = some old)
+    (hres : resolveRhs c w rhs d.nestedRefs = some v) (hsk : skipsForSet c d rhs w = true) :
+    ∃ w', step c (.set t p rhs) w = (.ok, w', []) ∧ w'.src = w.src ∧
+      ∃ tg', w'.tgts[t]? = some tg' ∧ tg'.vals = tg.vals ∧ tg'.dflt = tg.dflt ∧ (p, rhs) ∈ tg'.refs := by
+  have hparts : rhs.supported = true ∧ d.allowRefs = true ∧ (depsOf rhs d.nestedRefs).isEmpty = false := by
+    unfold skipsForSet at hsk; simp at hsk; exact ⟨hsk.1.1.1, hsk.1.1.2, by simpa using hsk.1.2⟩
+  obtain ⟨ds, hds⟩ := decls_of_decl hd
+  have hnp : ¬ p ≥ nparams c t := by
+    have : p < ds.length := by
+      rw [decl_of_decls hds] at hd
+      by_cases hlt : p < ds.length
+      · exact hlt
+      · exfalso; have : ds[p]? = none := by simp; omega
+        rw [this] at hd; cases hd
+    simp [nparams, hds]; exact this
+  have hsup : Op.supported c (.set t p rhs) = true := by
+    simp [Op.supported, keySupported, hd, hparts.1, hparts.2.1]
+  have hrfs : resolveForSet c d (dictGet tg.refs p).isSome rhs w = some (some v, .link rhs) := by
+    unfold resolveForSet; simp [hparts.1, hparts.2.1, hparts.2.2, hres]
+  have hset : setInst c t p rhs w = (.ok, applyRelink c t p (.link rhs) w, []) := by
+    unfold setInst; simp only [htg, hd, hread, hrfs, hsk, if_true]
+  refine ⟨applyRelink c t p (.link rhs) w, by unfold step; simp [hsup, hnp, hset], ?_⟩
+  have hget := fun t' x => tgts_set_get w.tgts t t' x tg htg
+  simp only [applyRelink, updateRef, htg, hds]
+  refine ⟨trivial, { tg with refs := dictSet tg.refs p rhs }, ?_, rfl, rfl, mem_dictSet.2 (Or.inl rfl)⟩
+  simp only [hget]; simp
 
 /-- **C08, "for good".**  A source update — whatever its value, whatever its outcome — leaves
 alone every parameter whose *current* link does not depend on the updated source parameter: an
@@ -283,7 +321,7 @@ def dflt : List Val := [.int 0, .int 0, .tup [0, 0]]
 def init : World := { src := [[1, 2], [3, 4]], watch := [[], []], tgts := [], stack := [] }
 
 /-- `T0(p0=S0.param.v0, p1=S0.param.v0, p2=(S0.param.v0, bind(f_0, S1.param.v1)))` -/
-def kws1 : List (Nat × Rhs) := [(0, .atom (.par 0 0)), (1, .atom (.par 0 0)), (2, .cont [.par 0 0, .fn [(1, 1)] 0 false])]
+def kws1 : List (Nat × Rhs) := [(0, .atom (.par 0 0)), (1, .atom (.par 0 0)), (2, .cont [.par 0 0, .fn [(1, 1)] 0 false none])]
 def w1 : World := (construct c dflt kws1 init).2
 def d1 : PDecl := { kind := .int, lo := none, hi := none, constant := false, readonly := false, allowRefs := true, nestedRefs := false }
 
@@ -312,8 +350,8 @@ theorem linked_value_tracks_reference_full_refuted : ¬ linked_value_tracks_refe
   intro hfull
   have hr : Reachable c false w2 := .step _ (w1_reachable false) (fun h => by cases h)
   have := hfull c w2 hr 0 ⟨[some (.int 1), some (.int 1), some (.tup [1, 4])], dflt,
-      [(0, .atom (.par 0 0)), (1, .atom (.par 0 0)), (2, .cont [.par 0 0, .fn [(1, 1)] 0 false])]⟩
-    1 (.atom (.par 0 0)) d1 (.int 50) (by decide) (by decide) (by decide) (by decide) (by decide)
+      [(0, .atom (.par 0 0)), (1, .atom (.par 0 0)), (2, .cont [.par 0 0, .fn [(1, 1)] 0 false none])]⟩
+    1 (.atom (.par 0 0)) d1 (.int 50) (by decide) (by decide) (by decide) (by decide) (by decide) (by decide)
   revert this; decide
 
 /-- `t.p0 = 5` (plain) on `T0(p0=S0.param.v0)`: the link is gone and so is the watcher on S0.v0 -/
@@ -325,8 +363,19 @@ example : (step c (.set 0 0 (.atom (.lit 5))) v1).1 = .ok ∧ v1.watch = [[(0, [
 /-- relinking instead (`t.p0 = S1.param.v0`) moves the watcher -/
 example : (step c (.set 0 0 (.atom (.par 1 0))) v1).2.1.watch = [[], [(0, [0])]] := by decide
 
+/-- a reference that raises Skip on its first evaluation (`bind(f, S1.param.v0)`, f skips below 5,
+S1.v0 = 3) assigned over the link to S0.v0: value untouched, link switched, watcher moved; the old
+source no longer drives the parameter, and once the new source yields a value the parameter takes it -/
+def sk : Rhs := .atom (.fn [(1, 0)] 0 false (some 5))
+def u1 : World := (step c (.set 0 0 sk) v1).2.1
+example : step c (.set 0 0 sk) v1 = (.ok, u1, []) ∧ u1.tgts.map (·.vals) = [[some (.int 1), none, none]] ∧
+    u1.tgts.map (·.refs) = [[(0, sk)]] ∧ u1.watch = [[], [(0, [0])]] ∧
+    (runOps c [.srcSet 0 0 7] u1).tgts.map (·.vals) = [[some (.int 1), none, none]] ∧
+    (runOps c [.srcSet 0 0 7, .srcSet 1 0 4] u1).tgts.map (·.vals) = [[some (.int 1), none, none]] ∧
+    (runOps c [.srcSet 0 0 7, .srcSet 1 0 4, .srcSet 1 0 6] u1).tgts.map (·.vals) = [[some (.int 6), none, none]] := by decide
+
 /-- constructor and late links give the same world -/
-example : runOps c [.set 0 0 (.atom (.par 0 0)), .set 0 1 (.atom (.par 0 0)), .set 0 2 (.cont [.par 0 0, .fn [(1, 1)] 0 false])]
+example : runOps c [.set 0 0 (.atom (.par 0 0)), .set 0 1 (.atom (.par 0 0)), .set 0 2 (.cont [.par 0 0, .fn [(1, 1)] 0 false none])]
     (construct c dflt [] init).2 = w1 := by decide
 
 end Example08
